@@ -141,7 +141,7 @@ def check_property(prop, tier, seed, jobs, write_evidence=True):
     relies = set()
     cross_runs = cross_bad = 0
     cover_problems = []
-    bounded = []
+    bounded = [{"contract": c.name, "bound": c.bounded} for c in cs if getattr(c, "bounded", None)]
     all_obls = []
     slow = []
     for t, r in zip(tasks, results):
